@@ -603,8 +603,20 @@ class _World:
         from passlib.exc import InvalidTokenError, MalformedTokenError, UsedTokenError
 
         m = None
+        # entry point: the object's match(), or the stateless one-shot TOTP.verify(token, source, ...) of the account's
+        # factory on a serialised / live source -- same decision rule
+        entry = "match"
+        if (ctx.n_ops + len(acct["delivered"])) % 4 == 1:
+            entry = ("verify_json", "verify_dict", "verify_obj")[(ctx.n_ops // 4) % 3]
+            ctx.probe("decided_through_" + entry)
         try:
-            m = totp.match(token, **kwargs)
+            if entry == "match":
+                m = totp.match(token, **kwargs)
+            else:
+                with warnings.catch_warnings():
+                    warnings.simplefilter("ignore")
+                    source = totp if entry == "verify_obj" else self._serialise(totp, entry[7:])
+                    m = acct["factory"].verify(token, source, **kwargs)
             got = ("accept", m.counter)
         except MalformedTokenError:
             got = ("malformed",)
@@ -613,7 +625,7 @@ class _World:
         except InvalidTokenError:
             got = ("invalid",)
         except Exception as e:
-            ctx.fail("C14", "match-internal-error", f"match({token!r}, {kwargs}) raised {type(e).__name__}: {e}",
+            ctx.fail("C14", "match-internal-error", f"{entry}({token!r}, {kwargs}) raised {type(e).__name__}: {e}",
                      exc=type(e).__name__)
         if tmode == "now":
             # the value the server's clock actually returned for this call, recorded at the seam
